@@ -1,5 +1,5 @@
 (* C18 -- shutdown request always wins: polling reports it and never blocks. *)
-From MH Require Import proofs.Server_proofs.
+From MH Require Import proofs.Server_proofs proofs.RunInv_proofs.
 
 (* once signalled, the kill switch's event is in every batch (K4: at most MAX_CONNECTIONS + 2
    descriptors are registered and the events array has that size; K6: the eventfd stays readable):
@@ -27,8 +27,16 @@ Theorem C18_events_preserve_flag : forall BUF w e w' ys,
   handle_event BUF w e = inl (w', ys) -> w_killed w' = w_killed w.
 Proof. intros BUF w e w' ys H. apply (handle_frame BUF w e w' ys H). Qed.
 
+(* over executed histories: once the switch is signalled, whatever clients and application do afterwards
+   (any list of operations of the interpreter the correspondence run executes), every poll reports the
+   shutdown -- in the canonical event order, without any hypothesis on the state *)
+Theorem C18_executed_kill_is_forever : forall BUF ops id i hk w,
+  w_killed w = true -> poll BUF (fst (run_srv_ops BUF id i hk w ops)) = Server.PErr EShutdown.
+Proof. exact executed_kill_is_forever. Qed.
+
 Print Assumptions C18_enabled.
 Print Assumptions C18_wins.
 Print Assumptions C18_poll_reports_shutdown.
 Print Assumptions C18_inert.
 Print Assumptions C18_events_preserve_flag.
+Print Assumptions C18_executed_kill_is_forever.
